@@ -47,5 +47,11 @@ let () =
          let r = show_num_res (mod_do a b) in
          let sp = (match spec_mod a b with Some x -> show_num_res x | None -> "-") in
          Printf.printf "%s\t%s\t%s\n" id r sp
+       | "fold" :: op :: vals ->
+         (* n-ary fold; observable "result;a;b;c..." : the operands must come back unchanged *)
+         let vs = List.map parse_num vals and op = arop_of op in
+         let r = show_num_res (numeric_fold op vs) in
+         let obs = String.concat ";" (r :: List.map show_num vs) in
+         Printf.printf "%s\t%s\t%s\n" id obs obs
        | _ -> failwith ("bad case: " ^ body))
     | _ -> failwith ("bad line: " ^ line))
